@@ -1103,7 +1103,7 @@ def run_ops(ctx):
     seqs = ops_sequences(ctx)
     jobs, metas = [], []
     for k, ops in enumerate(seqs):
-        for base in ([k % 3] if ctx.quick else [k % 3, (k + 1) % 3]):
+        for base in ([k % 3] if (ctx.quick or len(ops) == 4) else [k % 3, (k + 1) % 3]):
             which = ('base64', 'quoted-printable')[(k // 3) % 2]
             ops_f = ops + 'FR'            # final state check: what flatten shows, and the refusal if the body is still 8-bit
             exp, model_ops, final = ops_reference(base, which, ops_f)
